@@ -14,6 +14,7 @@ import (
 	"strings"
 	"testing"
 	"time"
+	"unicode/utf16"
 
 	"github.com/atlassian/escalator/pkg/controller"
 	v1 "k8s.io/api/core/v1"
@@ -267,10 +268,10 @@ func genBool() func(rt *rapid.T) any {
 // knownKeys maps every key the options struct is supposed to honour to its decoded field.
 func knownKeys() []docKey {
 	return []docKey{
-		{"name", false, func(o controller.NodeGroupOptions) any { return o.Name }, genStr("shared", "default", "a-b_c", "true", "123", "x: y", "quo\"te", "#hash")},
+		{"name", false, func(o controller.NodeGroupOptions) any { return o.Name }, genStr("shared", "default", "a-b_c", "true", "123", "x: y", "quo\"te", "#hash", "batch/spot", "rocket-\U0001F680", "gr\u00f6\u00dfe")},
 		{"label_key", false, func(o controller.NodeGroupOptions) any { return o.LabelKey }, genStr("customer", "k8s.io/role")},
 		{"label_value", false, func(o controller.NodeGroupOptions) any { return o.LabelValue }, genStr("shared", "v", "null", "~")},
-		{"cloud_provider_group_name", false, func(o controller.NodeGroupOptions) any { return o.CloudProviderGroupName }, genStr("shared-nodes", "asg-1")},
+		{"cloud_provider_group_name", false, func(o controller.NodeGroupOptions) any { return o.CloudProviderGroupName }, genStr("shared-nodes", "asg-1", "team/asg-1")},
 		{"min_nodes", false, func(o controller.NodeGroupOptions) any { return o.MinNodes }, genInt(0, 50)},
 		{"max_nodes", false, func(o controller.NodeGroupOptions) any { return o.MaxNodes }, genInt(0, 500)},
 		{"dry_mode", false, func(o controller.NodeGroupOptions) any { return o.DryMode }, genBool()},
@@ -433,13 +434,33 @@ func sortedKeys[V any](m map[string]V) []string {
 	return ks
 }
 
-func renderJSON(groups []groupSrc, indent bool, pad int) string {
+// renderJSON writes the groups as JSON. escapes: 0 = as Go's encoder writes strings; 1 = with the
+// solidus escaped ("\/", as several encoders do by default); 2 = ASCII only (every other character
+// as a \uXXXX escape, surrogate pairs above the BMP) plus the escaped solidus. All are the same JSON text.
+func renderJSON(groups []groupSrc, indent bool, pad int, escapes ...int) string {
 	doc := map[string]any{"node_groups": groups}
 	var b []byte
 	if indent {
 		b, _ = json.MarshalIndent(doc, "", "  ")
 	} else {
 		b, _ = json.Marshal(doc)
+	}
+	if len(escapes) > 0 && escapes[0] > 0 {
+		var sb strings.Builder
+		for _, r := range string(b) {
+			switch {
+			case r == '/': // only occurs inside strings
+				sb.WriteString(`\/`)
+			case r > 0x7e && escapes[0] == 2 && r > 0xffff:
+				r1, r2 := utf16.EncodeRune(r)
+				fmt.Fprintf(&sb, `\u%04x\u%04x`, r1, r2)
+			case r > 0x7e && escapes[0] == 2:
+				fmt.Fprintf(&sb, `\u%04x`, r)
+			default:
+				sb.WriteRune(r)
+			}
+		}
+		b = []byte(sb.String())
 	}
 	if pad > 0 { // leading whitespace keeps it JSON and pushes content past the sniff buffer
 		return strings.Repeat(" ", pad) + string(b)
@@ -528,10 +549,21 @@ func TestC16Decode(t *testing.T) {
 		pad := rapid.SampledFrom([]int{0, 0, 4000, 4096, 5000, 66000, 140000}).Draw(rt, "pad")
 		style := rapid.IntRange(0, 2).Draw(rt, "yamlStyle")
 		y := renderYAML(groups, style, pad)
-		js := renderJSON(groups, rapid.Bool().Draw(rt, "indent"), pad)
+		escapes := rapid.IntRange(0, 2).Draw(rt, "jsonEscapes")
+		js := renderJSON(groups, rapid.Bool().Draw(rt, "indent"), pad, escapes)
 		col.Eval(1)
 		fromY, errY := controller.UnmarshalNodeGroupOptions(strings.NewReader(y))
 		fromJ, errJ := controller.UnmarshalNodeGroupOptions(bytes.NewReader([]byte(js)))
+		if errY == nil && errJ != nil && escapes > 0 && pad >= 4096 && strings.Contains(errJ.Error(), "yaml:") && strings.Contains(js, "\\") {
+			// JSON that starts behind 4096 or more bytes of whitespace is not recognised as JSON and goes
+			// through the YAML reader, which rejects escapes only JSON knows
+			sig := "C16:json-escapes-refused-behind-leading-whitespace"
+			if !isKnown(sig) {
+				fail(rt, dumpPath(), sig, "json err=%v\n--- json (after %d bytes of whitespace)\n%s", errJ, pad, strings.TrimSpace(js))
+			}
+			col.KnownFinding(sig)
+			return
+		}
 		if errY != nil || errJ != nil {
 			fail(rt, dumpPath(), "C16:decode-error", "yaml err=%v json err=%v\n--- yaml\n%s\n--- json\n%s", errY, errJ, y, js)
 		}
